@@ -625,12 +625,10 @@ func ruleTreeSearchCost(c *Ctx, r *R) {
 	} else {
 		r.undecided("tree.btree.searchNode|missing", token.NoPos, "anchor not found")
 	}
-	for _, name := range []string{treeRel + ".btree.Get", treeRel + ".btree.Contains", treeRel + ".btree.Put", treeRel + ".btree.Delete", treeRel + ".cursor.find"} {
-		fn := c.fn(name)
-		if fn == nil {
-			r.undecided(name+"|missing", token.NoPos, "anchor not found")
-			continue
-		}
+	// every caller of searchNode descends one level per call: the call sits in a loop and the loop continues only
+	// through children[idx] of that call's result
+	nSites := 0
+	for _, fn := range c.funcsOfPkg(treeRel) {
 		var calls []*ssa.Call
 		instrs(fn, func(b *ssa.BasicBlock, i int, in ssa.Instruction) {
 			if call, ok := in.(*ssa.Call); ok {
@@ -639,14 +637,18 @@ func ruleTreeSearchCost(c *Ctx, r *R) {
 				}
 			}
 		})
+		if len(calls) == 0 {
+			continue
+		}
+		name := c.nameOf(fn)
+		nSites++
 		good := len(calls) == 1
 		if good {
 			call := calls[0]
-			// in a loop; the loop continues only via curr = curr.children[idx]
 			inLoop := reaches(call.Block(), call.Block())
 			desc := false
 			instrs(fn, func(b *ssa.BasicBlock, i int, in ssa.Instruction) {
-				if phi, ok := in.(*ssa.Phi); ok && phi.Comment == "curr" {
+				if phi, ok := in.(*ssa.Phi); ok {
 					for _, e := range phi.Edges {
 						ep := path(e)
 						if strings.Contains(ep, ".children[") && strings.Contains(ep, "searchNode") {
@@ -658,6 +660,37 @@ func ruleTreeSearchCost(c *Ctx, r *R) {
 			good = inLoop && desc
 		}
 		r.ok(good, name+"|one-search-per-level", fn.Pos(), "a lookup must call searchNode once per level and descend into children[idx] of that result")
+	}
+	r.ok(nSites >= 4, "tree|search-sites", token.NoPos, "expected the lookups (Get/Contains or their shared helper, Put, Delete, cursor.find) to go through searchNode; found "+itoa(nSites)+" callers")
+	// the public lookups reach searchNode
+	for _, n := range []string{"btree.Get", "btree.Contains"} {
+		f := c.fn(treeRel + "." + n)
+		if f == nil {
+			r.undecided(treeRel+"."+n+"|missing", token.NoPos, "anchor not found")
+			continue
+		}
+		reach := false
+		seen := map[*ssa.Function]bool{}
+		var walk func(g *ssa.Function)
+		walk = func(g *ssa.Function) {
+			if seen[g] || g.Blocks == nil {
+				return
+			}
+			seen[g] = true
+			instrs(g, func(b *ssa.BasicBlock, i int, in ssa.Instruction) {
+				if call, ok := in.(*ssa.Call); ok {
+					if cal := staticCallee(&call.Call); cal != nil {
+						if cal.Name() == "searchNode" {
+							reach = true
+						} else if cal.Pkg == f.Pkg {
+							walk(cal)
+						}
+					}
+				}
+			})
+		}
+		walk(f)
+		r.ok(reach, treeRel+"."+n+"|uses-searchNode", f.Pos(), n+" must locate keys through searchNode (the function whose comparison count is bounded)")
 	}
 }
 
@@ -762,4 +795,121 @@ func ruleTreeParentLinks(c *Ctx, r *R) {
 		})
 		r.ok(good, "tree.btree.mergeTwo|new-root-has-no-parent", mt.Pos(), "a node promoted to root must have its parent cleared")
 	}
+}
+
+var _ = late(func() {
+	p := properties["C03"]
+	p.Rules = append(p.Rules,
+		&Rule{ID: "C03.children-one-more", Floor: 4, Clause: "wherever the same helper (insertOne/removeOne/copy/Clear) is applied to X.keys[..hi] and to X.children[..hi'] in one function, hi' is hi+1 (or both are the whole array): a node with n keys has n+1 children",
+			Run: ruleChildrenOneMore},
+		&Rule{ID: "C03.cmp-zero-only", Floor: 10, Clause: "the three-way compare's result is only compared with 0 (every key stays on exactly one search path for any valid comparator, not only those returning -1/0/+1)",
+			Run: ruleCmpZeroOnly})
+})
+
+func ruleChildrenOneMore(c *Ctx, r *R) {
+	for _, fn := range c.funcsOfPkg(treeRel) {
+		name := c.nameOf(fn)
+		type use struct {
+			hi  ssa.Value
+			lo  ssa.Value
+			pos token.Pos
+		}
+		// key: helper name + node path + argument position
+		keys := map[string][]use{}
+		kids := map[string][]use{}
+		instrs(fn, func(b *ssa.BasicBlock, i int, in ssa.Instruction) {
+			call, ok := in.(*ssa.Call)
+			if !ok {
+				return
+			}
+			hname := ""
+			if cal := staticCallee(&call.Call); cal != nil {
+				hname = cal.Name()
+			} else if bi, ok := call.Call.Value.(*ssa.Builtin); ok {
+				hname = bi.Name()
+			}
+			switch hname {
+			case "insertOne", "removeOne", "copy", "Clear":
+			default:
+				return
+			}
+			for ai, a := range call.Call.Args {
+				sl, ok := a.(*ssa.Slice)
+				if !ok {
+					continue
+				}
+				nd, arr, ok := nodeArray(sl)
+				if !ok {
+					continue
+				}
+				k := hname + "|" + path(nd) + "|arg" + itoa(ai)
+				u := use{hi: sl.High, lo: sl.Low, pos: call.Pos()}
+				switch arr {
+				case "keys":
+					keys[k] = append(keys[k], u)
+				case "children":
+					kids[k] = append(kids[k], u)
+				}
+			}
+		})
+		for k, ks := range keys {
+			cs, ok := kids[k]
+			if !ok {
+				continue
+			}
+			for i := 0; i < len(ks) && i < len(cs); i++ {
+				ku, cu := ks[i], cs[i]
+				key := name + "|" + k + "#" + itoa(i+1)
+				good := false
+				why := ""
+				switch {
+				case ku.hi == nil && cu.hi == nil:
+					// whole-array forms; when slicing from a lower bound (Clear(x.keys[n:]) / Clear(x.children[n+1:])) the lower bounds differ by one
+					if ku.lo == nil && cu.lo == nil {
+						good = true
+					} else if ku.lo != nil && cu.lo != nil && !strings.HasPrefix(k, "Clear|") {
+						continue // a copy destination offset: keys and children legitimately start at the same offset
+					} else if ku.lo != nil && cu.lo != nil {
+						good = plusOne(cu.lo, ku.lo)
+						why = "children are cleared from " + path(cu.lo) + " but keys from " + path(ku.lo)
+					}
+				case ku.hi != nil && cu.hi != nil:
+					good = plusOne(cu.hi, ku.hi)
+					why = "keys are handled up to " + path(ku.hi) + " but children up to " + path(cu.hi)
+				default:
+					why = "one of keys/children is handled as a whole array, the other as a prefix"
+				}
+				r.ok(good, key, cu.pos, "a node with n keys has n+1 children: "+why+" (want exactly one more); the last child pointer is otherwise lost or a stale one kept")
+			}
+		}
+	}
+}
+
+// plusOne: a == b + 1 structurally.
+func plusOne(a, b ssa.Value) bool {
+	ap, bp := unparen(path(a)), unparen(path(b))
+	if ap == bp+"+1" || ap == "("+bp+")+1" {
+		return true
+	}
+	// (x+1)+1 vs x+1 ; x+2 vs x+1
+	if av, ok := evalConst(a, 0); ok {
+		if bv, ok := evalConst(b, 0); ok {
+			return av == bv+1
+		}
+	}
+	if ab, ok := a.(*ssa.BinOp); ok && ab.Op == token.ADD {
+		if bb, ok := b.(*ssa.BinOp); ok && bb.Op == token.ADD && path(ab.X) == path(bb.X) {
+			if x, ok := evalConst(ab.Y, 0); ok {
+				if y, ok := evalConst(bb.Y, 0); ok {
+					return x == y+1
+				}
+			}
+		}
+		if path(ab.X) == path(b) {
+			if x, ok := evalConst(ab.Y, 0); ok && x == 1 {
+				return true
+			}
+		}
+	}
+	return false
 }
